@@ -633,6 +633,17 @@ def case_conjunction(mon, seedval):
             n0, dd = C.planetary_conjunction(A(ra1), A(de1), A(ra2), A(de2))
             ra2u, de2u = ra2, de2
     except Exception as ex:
+        # as for root(): an answer is owed when the difference in right
+        # ascension changes sign between the ends of the table; two
+        # conjunctions inside one table (relative curvature beating the
+        # relative motion) leave the same sign at both ends
+        u2 = [ra2[half]] * n if star else ra2
+        e0 = (Angle(ra1[0]) - Angle(u2[0]))._deg
+        e1 = (Angle(ra1[n_used - 1]) - Angle(u2[n_used - 1]))._deg
+        if isinstance(ex, ValueError) and e0 * e1 > 0.0:
+            mon.refusal("conjunction:no-sign-change-between-table-ends"
+                        "(not judged)")
+            return
         mon.dev("conjunction.root-of-dalpha",
                 {"seed": seedval, "raised": repr(ex)})
         return
